@@ -45,7 +45,7 @@ claim("C04", "TLC trace validation of real molecular crystals + model checking o
       "cell boundaries) are built; TLC first evaluates the domain guard (every contact of the infinite crystal is an intended bond or clearly non-bonded) "
       "and then validates connectivity edges and cells, count Z' x |G|, partition of the unit-cell atoms, wholeness (each molecule is a lattice translate "
       "of the exact image of its parent, hence isometric and bonded), provenance columns, centre of mass in the cell, coverage by the symmetry-unique "
-      "molecules and the image labels. Every in-place switch of the recipes is preceded by a request the object must refuse (a misspelt choice). Atom names may repeat in every molecule; the unit-cell atoms handed out stay as they were after molecule queries; neighbour molecules handed out are moved by the caller.",
+      "molecules and the image labels. Every in-place switch of the recipes is preceded by a request the object must refuse (a misspelt choice). Atom names may repeat in every molecule; the unit-cell atoms handed out stay as they were after molecule queries; neighbour molecules handed out are moved by the caller. Solid dihydrogen is among the recipes.",
       "Bond thresholds come from covalent radii held by the specification (Molecules!CovRadius100, certified by ThresholdsOK) with a +-0.08 A guard "
       "band; molecule coordinates are projected to the 1/48 grid (residual > 1e-6 rejected); chemistry restricted to trees of 2-5 atoms of "
       "C/N/O/F/H with terminal Cl/Br/I/S, on general positions, every non-bonded contact at least 0.65 A beyond the sum of radii.")
@@ -59,7 +59,7 @@ claim("C03", "TLC trace validation against an exact brute-force neighbour enumer
       "are whole molecules judged by Dimers!ShellExpected (every atom within the radius drags in the molecule it belongs to; per dimer: reported "
       "separation, class agreement, representatives); TLC recomputes the expected rows from the space group, the asymmetric unit and the integer "
       "Gram matrix by brute force over a box it certifies (BigInt inequality) to contain the query ball, and checks none missing / none extra / no "
-      "duplicate / centre excluded / element, parent index, distance and cell columns. molecule_environment is also asked for a molecule handed over with displaced coordinates (single precision under the default threshold; a coarser copy with a stated threshold), TLC certifying a shell clear of atoms around the query sphere (GivenGuard).",
+      "duplicate / centre excluded / element, parent index, distance and cell columns. molecule_environment is also asked for a molecule handed over with displaced coordinates (single precision under the default threshold; a coarser copy with a stated threshold), TLC certifying a shell clear of atoms around the query sphere (GivenGuard). The transform each dimer of symmetry_unique_dimers carries must fit its own two molecules as well as the harness's own SVD fit.",
       "Radii are (k+1/2)u^2/N^2 so no atom is on the query sphere; returned Cartesian positions are pulled back with the crystal's to_fractional and "
       "projected to the grid (residual > 1e-6 rejected); functional_group_surroundings shares the search-box code but is not driven; which geometrically "
       "distinct dimers share a class is left to the library (three separations within a tolerance).")
@@ -84,7 +84,7 @@ claim("C20", "TLC model checking of the Sobol state machine on the exported dire
       "(data-driven: table exported from the tree) checks stratification at every power of two and the (0,m,2)-net property for dimensions 1..40 + seeded others "
       "(quick) / all 1..1000 with m <= 12 (thorough, 4.1M states), and enumerates all ordered pairs of calls over a 72-call alphabet for replay. Sessions of shuffled "
       "single/batch/front-end calls on windows [s, s+k] (s <= 10^6, k <= 256, up to 1000 dims) are validated one TLC step per point: Sobol values must equal the spec's "
-      "integers exactly, all values in [0,1), and an observation register demands the same value for the same (method, seed, dim) by every route and order. Sessions include windows across powers of two and across the multiples of 2^16 beyond 2^19, many dimensions (next to the multiples of 128) at large seeds, and both methods asked in turn through the front end. A stream is read in consecutive chunks across powers of two, and far windows are asked from six threads at once.",
+      "integers exactly, all values in [0,1), and an observation register demands the same value for the same (method, seed, dim) by every route and order. Sessions include windows across powers of two and across the multiples of 2^16 beyond 2^19, many dimensions (next to the multiples of 128) at large seeds, and both methods asked in turn through the front end. A stream is read in consecutive chunks across powers of two, and far windows are asked from six threads at once. Korobov windows end on all-ones seeds, and calls leave the seed out.",
       "Korobov values have no exact oracle (range, determinism and route agreement to 2^-60 only); compiled kernels used as found.")
 
 claim("C13", "TLC trace validation of P1/supercell/trigonal re-expressions + model checking of the trigonal basis change",
@@ -93,7 +93,7 @@ claim("C13", "TLC trace validation of P1/supercell/trigonal re-expressions + mod
       "hexagonal and rhombohedral descriptions coincide atom by atom modulo the lattice with counts 3:1, and that H->R->H and R->H->R restore the state. Real crystals "
       "(molecular and atomic, all settings in thorough, cells from parameters / lattice vectors / arbitrarily rotated lattice vectors) go through as_P1, as_P1_supercell, "
       "to_translational_symmetry (sizes to 3x3x3) and choose_trigonal_lattice from either setting and back; TLC checks P1-ness, the supercell Gram matrix, the exact atom "
-      "set modulo the supercell, atom and volume ratios, density, the switched state against SwitchTrigonal, and the round trip. Other structures (a CIF in an untabulated setting, a POSCAR) are loaded in the same process before the judged calls. General sites may be partially occupied.",
+      "set modulo the supercell, atom and volume ratios, density, the switched state against SwitchTrigonal, and the round trip. Other structures (a CIF in an untabulated setting, a POSCAR) are loaded in the same process before the judged calls. General sites may be partially occupied. Two occupants of one site are judged on the density of the crystal against its P1 form.",
       "Cells are seen through their integer Gram matrix; coordinates projected to the grid (residual > 1e-6 rejected); density to 1e-6 relative; fresh objects only (staleness is C14).")
 
 claim("C14", "TLC model checking of the memo/mutation state machine + TLC-enumerated histories replayed on real objects and trace-validated",
@@ -122,7 +122,7 @@ claim("C15", "TLC model checking of the CIF parser state machine + trace validat
       "Parse(Ser(d)) = d with the parser actions taken step by step for all small data sets (<= 2 blocks, <= 3 items, <= 3 cells, a 10-value alphabet incl. negative "
       "ints, integer-valued decimals, uncertainty forms, strings with blanks/commas/quotes/double blanks): 616k states quick, ~15M thorough. Seeded random dictionaries, "
       "the repository's CIF files, the dictionaries written by real Crystal objects (Crystal.to_cif_data: the CIF leg of C10 at byte level) and parse_value forms go through the real Cif(d).to_string()/Cif.from_string; TLC checks block names, item names, row alignment, value "
-      "types and values against the original, then runs the spec's own parser on the written bytes and demands agreement with the library's parser. Tables include rows of more than 2048 characters, long free text (thorough) and strings that contain a reserved word inside.",
+      "types and values against the original, then runs the spec's own parser on the written bytes and demands agreement with the library's parser. Tables include rows of more than 2048 characters, long free text (thorough) and strings that contain a reserved word inside. The empty string is inside the domain; a file route rewrites and rereads one path.",
       "Domain guard evaluated by TLC (empty blocks/strings, strings needing nested quotes, number-like strings are out of domain as the statement says); floats shipped as exact digit sequences, loop-cell floats compared to 5e-13 + 1e-15|x|.")
 
 claim("C10", "TLC trace validation of file content and reloaded crystals for all 530 settings x 3 formats + MC of the LATT/SYMM round trip",
